@@ -2,35 +2,56 @@
   C15 — unsafe code stays in bounds (the part that is logic).
 
   Obligations over the asm programs *generated from the source on every run* (NB.Gen.AsmProg),
-  under the mini x86 semantics of NB.Model.Asm:
+  under the mini x86 semantics of NB.Model.Asm.  Nothing in this file depends on the instruction
+  lists: the two generated programs are passed through the CERTIFIED CHECKER `NB.Asm.checkLoop`
+  (NB.Model.AsmCheck; soundness proved once for every program in NB.Props.C15G) by the two facts
+  `add_checked` / `sub_checked` (`by decide`), and everything else follows:
     * the program has the single-loop shape; it never stores through the `b` pointer;
     * one loop iteration, started with `idx + w ≤ len a, len b`, does not fault, leaves `b`
       untouched, advances `idx` by exactly `w`, changes `a` only inside `[idx, idx+w)` and
-      computes the adc/sbb chain there;
+      computes the adc/sbb chain there (`add_body_spec`, `sub_body_spec`);
     * the whole routine called with `n ≥ 1` iterations and `w*n ≤ len a, len b` does not fault,
-      touches only `a[0 .. w*n)`, returns `idx = w*n` and the carry of the chain;
+      touches only `a[0 .. w*n)`, returns `idx = w*n` and the carry of the chain (`add_run_spec`, …);
     * on the caller's side: `w * (len / d) ≤ len` (NB.blk_done_le, C01), so the Rust wrappers
       pass lengths that satisfy those preconditions;
     * list-level corollary (C01 tier B): the routine computes exactly `adcZip` / `sbbZip` on the
-      first `w*n` digits — which is what NB.add2c / NB.sub2 assume about it.
+      first `w*n` digits — which is what NB.add2c / NB.sub2 assume about it
+      (`asm_add_refines`, `asm_sub_refines`).
+  A maintainer edit of the asm (memory operands, `lea`, another unroll factor, reordered
+  independent instructions, other scratch registers) re-proves as long as the checker accepts the
+  new instruction list; an edit the checker rejects makes `add_checked`/`sub_checked` fail.
   What this cannot show: that the machine code rustc emits honours the operand constraints and
   that real memory behaves like the two bounded arrays — observed by the valgrind run instead.
 -/
-import NB.Lemmas.Asm
+import NB.Props.C15G
 import NB.Model.AsmParams
 import NB.Props.C01
 namespace NB.Asm
 open NB NB.Gen
 
+def addRegs : Regs := ⟨addReg_size, addReg_a, addReg_b, addReg_c, addReg_idx⟩
+def subRegs : Regs := ⟨subReg_size, subReg_a, subReg_b, subReg_c, subReg_idx⟩
+
+/-- THE CHECKER ACCEPTS THE GENERATED ADD PROGRAM, with the block width the C01 model uses
+    (`P.addBlk.w`, read off the `inc`/`lea` instructions by `NB.Gen.idxStep`) -/
+theorem add_checked : checkLoop false addProg addRegs addNRegs = some NB.Gen.P.addBlk.w := by decide
+/-- THE CHECKER ACCEPTS THE GENERATED SUB PROGRAM -/
+theorem sub_checked : checkLoop true subProg subRegs subNRegs = some NB.Gen.P.subBlk.w := by decide
+
 def addLoop : Loop := (splitLoop addProg).getD ⟨[], [], []⟩
 def subLoop : Loop := (splitLoop subProg).getD ⟨[], [], []⟩
 
 /-- both generated programs have the shape `pre; L: body; jnz L; post` -/
-theorem add_prog_shape : splitLoop addProg = some addLoop := by decide
-theorem sub_prog_shape : splitLoop subProg = some subLoop := by decide
+theorem add_prog_shape : splitLoop addProg = some addLoop := by
+  obtain ⟨l, _, hs, _⟩ := checkLoop_inv add_checked
+  simp only [addLoop, hs, Option.getD_some]
+theorem sub_prog_shape : splitLoop subProg = some subLoop := by
+  obtain ⟨l, _, hs, _⟩ := checkLoop_inv sub_checked
+  simp only [subLoop, hs, Option.getD_some]
 
 def storesThrough (r : Nat) : Instr → Bool
   | .store base _ _ _ => base == r
+  | .storen base _ _ => base == r
   | _ => false
 
 /-- no instruction of either program stores through the read-only pointer `b` -/
@@ -41,37 +62,11 @@ theorem asm_b_readonly :
 def addCfg (la lb : Nat) : Cfg := ⟨addReg_a, addReg_b, la, lb⟩
 def subCfg (la lb : Nat) : Cfg := ⟨subReg_a, subReg_b, la, lb⟩
 
-macro "asm_side" : tactic => `(tactic| first
-  | rfl
-  | (simp only [addCfg, subCfg, addReg_a, addReg_b, addReg_idx, addReg_size, addReg_c,
-                subReg_a, subReg_b, subReg_idx, subReg_size, subReg_c, ne_eq]; decide)
-  | (simp [addCfg, subCfg, addReg_idx, addReg_a, addReg_b, addReg_size, subReg_idx, subReg_a, subReg_b, subReg_size, upd] at *; omega))
+/-- block width of the add loop: the checker's certified width is the one the C01 model uses and
+    the divisor of the wrapper covers it -/
+theorem add_width : NB.Gen.P.addBlk.w ≤ addDiv := gen_params_valid_addsub.1.2
+theorem sub_width : NB.Gen.P.subBlk.w ≤ subDiv := gen_params_valid_addsub.2.2
 
-macro "asm_step" : tactic => `(tactic| first
-  | rw [exec_load_a (by asm_side) (by asm_side) (by asm_side) (by asm_side)]
-  | rw [exec_load_b (by asm_side) (by asm_side) (by asm_side) (by asm_side) (by asm_side)]
-  | rw [exec_store_a (by asm_side) (by asm_side)]
-  | rw [exec_adc (by asm_side) (by asm_side)]
-  | rw [exec_sbb (by asm_side) (by asm_side)]
-  | rw [exec_inc (by asm_side) (by asm_side)]
-  | rw [exec_dec (by asm_side) (by asm_side)]
-  | rw [exec_setc (by asm_side) (by asm_side)]
-  | rw [exec_clc])
-
-/-- block width of the add loop as derived from the generated program -/
-theorem add_width : NB.Gen.P.addBlk.w = 5 := by decide
-theorem sub_width : NB.Gen.P.subBlk.w = 5 := by decide
-
-/-- what one iteration / the whole loop must establish about the final state -/
-structure BodyPost (s' : St) (b : Nat → Nat) (ch : (Nat → Nat) × Bool) (idx' size' : Nat) (rIdx rSize : Nat) : Prop where
-  cf : s'.cf = ch.2
-  a : s'.a = ch.1
-  b : s'.b = b
-  zf : s'.zf = decide (s'.regs rSize = 0)
-  idx : s'.regs rIdx = idx'
-  size : s'.regs rSize = size'
-
-set_option maxRecDepth 4000 in
 /-- ONE ITERATION of the add loop: no fault, `b` untouched, `idx += w`, `size -= 1`,
     `a` and CF are exactly the adc chain over `[idx, idx+w)` -/
 theorem add_body_spec (la lb : Nat) (regs : Nat → Nat) (cf zf : Bool) (a b : Nat → Nat) (i : Nat)
@@ -79,100 +74,21 @@ theorem add_body_spec (la lb : Nat) (regs : Nat → Nat) (cf zf : Bool) (a b : N
     ∃ s', exec (addCfg la lb) addLoop.body ⟨regs, cf, zf, a, b⟩ = some s' ∧
       BodyPost s' b (chainAdd a b cf i NB.Gen.P.addBlk.w) (i + NB.Gen.P.addBlk.w)
         ((regs addReg_size + B - 1) % B) addReg_idx addReg_size := by
-  rw [add_width] at *
-  simp [addLoop, splitLoop, addProg, isCtl, List.takeWhile]
-  repeat (asm_step; try simp (disch := decide) only [upd_ne, upd_same, Nat.add_zero])
-  rw [exec_nil]
-  simp only [addReg_idx] at hi
-  refine ⟨_, rfl, ?_, ?_, rfl, ?_, ?_, ?_⟩
-  · simp [chainAdd, adcI, hi]
-  · funext j
-    simp [chainAdd, adcI, upd, hi]
-  · simp (disch := decide) only [addReg_size, upd_ne, upd_same]
-  · simp (disch := decide) only [addReg_idx, upd_ne, upd_same, hi]
-    have h1 : (i + 1) % B = i + 1 := Nat.mod_eq_of_lt (by omega)
-    have h2 : (i + 1 + 1) % B = i + 1 + 1 := Nat.mod_eq_of_lt (by omega)
-    have h3 : (i + 1 + 1 + 1) % B = i + 1 + 1 + 1 := Nat.mod_eq_of_lt (by omega)
-    have h4 : (i + 1 + 1 + 1 + 1) % B = i + 1 + 1 + 1 + 1 := Nat.mod_eq_of_lt (by omega)
-    have h5 : (i + 1 + 1 + 1 + 1 + 1) % B = i + 1 + 1 + 1 + 1 + 1 := Nat.mod_eq_of_lt (by omega)
-    rw [h1, h2, h3, h4, h5]
-  · simp (disch := decide) only [addReg_size, upd_ne, upd_same]
+  obtain ⟨l, σ, hs, _, _, _, _, hex, hfin⟩ := checkLoop_inv add_checked
+  have hl : addLoop = l := by simp only [addLoop, hs, Option.getD_some]
+  rw [hl, ← chainG_adc]
+  exact checkBody_sound hex hfin la lb regs cf zf a b i hi hla hlb hB
 
-set_option maxRecDepth 4000 in
 /-- ONE ITERATION of the sub loop -/
 theorem sub_body_spec (la lb : Nat) (regs : Nat → Nat) (cf zf : Bool) (a b : Nat → Nat) (i : Nat)
     (hi : regs subReg_idx = i) (hla : i + NB.Gen.P.subBlk.w ≤ la) (hlb : i + NB.Gen.P.subBlk.w ≤ lb) (hB : la < B) :
     ∃ s', exec (subCfg la lb) subLoop.body ⟨regs, cf, zf, a, b⟩ = some s' ∧
       BodyPost s' b (chainSub a b cf i NB.Gen.P.subBlk.w) (i + NB.Gen.P.subBlk.w)
         ((regs subReg_size + B - 1) % B) subReg_idx subReg_size := by
-  rw [sub_width] at *
-  simp [subLoop, splitLoop, subProg, isCtl, List.takeWhile]
-  repeat (asm_step; try simp (disch := decide) only [upd_ne, upd_same, Nat.add_zero])
-  rw [exec_nil]
-  simp only [subReg_idx] at hi
-  refine ⟨_, rfl, ?_, ?_, rfl, ?_, ?_, ?_⟩
-  · simp [chainSub, sbbI, hi]
-  · funext j
-    simp [chainSub, sbbI, upd, hi]
-  · simp (disch := decide) only [subReg_size, upd_same]
-  · simp (disch := decide) only [subReg_idx, upd_ne, upd_same, hi]
-    have h1 : (i + 1) % B = i + 1 := Nat.mod_eq_of_lt (by omega)
-    have h2 : (i + 1 + 1) % B = i + 1 + 1 := Nat.mod_eq_of_lt (by omega)
-    have h3 : (i + 1 + 1 + 1) % B = i + 1 + 1 + 1 := Nat.mod_eq_of_lt (by omega)
-    have h4 : (i + 1 + 1 + 1 + 1) % B = i + 1 + 1 + 1 + 1 := Nat.mod_eq_of_lt (by omega)
-    have h5 : (i + 1 + 1 + 1 + 1 + 1) % B = i + 1 + 1 + 1 + 1 + 1 := Nat.mod_eq_of_lt (by omega)
-    rw [h1, h2, h3, h4, h5]
-  · simp (disch := decide) only [subReg_size, upd_same]
-
-/-- THE LOOP, any number of iterations `n ≥ 1`: by induction over `n` from a one-iteration spec -/
-theorem loop_spec (k : Cfg) (body : List Instr) (rIdx rSize w : Nat)
-    (chain : (Nat → Nat) → (Nat → Nat) → Bool → Nat → Nat → (Nat → Nat) × Bool)
-    (hadd : ∀ f g c i n m, chain f g c i (n + m) = chain (chain f g c i n).1 g (chain f g c i n).2 (i + n) m)
-    (hbody : ∀ regs cf zf a b i, regs rIdx = i → i + w ≤ k.la → i + w ≤ k.lb →
-      ∃ s', exec k body ⟨regs, cf, zf, a, b⟩ = some s' ∧
-        BodyPost s' b (chain a b cf i w) (i + w) ((regs rSize + B - 1) % B) rIdx rSize) :
-    ∀ n, 1 ≤ n → n < B → ∀ regs cf zf a b i, regs rIdx = i → regs rSize = n →
-      i + w * n ≤ k.la → i + w * n ≤ k.lb → ∀ fuel, n ≤ fuel →
-      ∃ s', loop k body fuel ⟨regs, cf, zf, a, b⟩ = some s' ∧
-        BodyPost s' b (chain a b cf i (w * n)) (i + w * n) 0 rIdx rSize := by
-  intro n
-  induction n with
-  | zero => intro h; omega
-  | succ n ih =>
-    intro _ hnB regs cf zf a b i hi hsz hla hlb fuel hfuel
-    obtain ⟨fuel', rfl⟩ : ∃ f, fuel = f + 1 := ⟨fuel - 1, by omega⟩
-    have hw : w * (n + 1) = w + w * n := by rw [Nat.mul_succ, Nat.add_comm]
-    obtain ⟨s1, he, hp⟩ := hbody regs cf zf a b i hi (by rw [hw] at hla; omega) (by rw [hw] at hlb; omega)
-    simp only [loop, he]
-    have hs1size : s1.regs rSize = n := by
-      rw [hp.size, hsz]
-      have : n + 1 + B - 1 = n + B := by omega
-      rw [this, Nat.add_mod_right, Nat.mod_eq_of_lt (by omega)]
-    by_cases hn0 : n = 0
-    · subst hn0
-      have hz : s1.zf = true := by rw [hp.zf, hs1size]; rfl
-      simp only [hz, if_true]
-      refine ⟨s1, rfl, ?_⟩
-      have e : w * (0 + 1) = w := by omega
-      rw [e]
-      exact ⟨hp.cf, hp.a, hp.b, hp.zf, hp.idx, hs1size⟩
-    · have hz : s1.zf = false := by rw [hp.zf, hs1size]; simp [hn0]
-      simp only [hz]
-      obtain ⟨regs1, cf1, zf1, a1, b1⟩ := s1
-      simp only at hp hs1size
-      have hb1 : b1 = b := hp.b
-      subst hb1
-      obtain ⟨s2, he2, hp2⟩ := ih (by omega) (by omega) regs1 cf1 zf1 a1 b1 (i + w) hp.idx hs1size
-        (by rw [hw] at hla; omega) (by rw [hw] at hlb; omega) fuel' (by omega)
-      refine ⟨s2, by simpa using he2, ?_⟩
-      have hc := hadd a b1 cf i w (w * n)
-      rw [hw, hc]
-      have e1 : a1 = (chain a b1 cf i w).1 := hp.a
-      have e2 : cf1 = (chain a b1 cf i w).2 := hp.cf
-      rw [← e1, ← e2]
-      have e3 : i + (w + w * n) = i + w + w * n := by omega
-      rw [e3]
-      exact hp2
+  obtain ⟨l, σ, hs, _, _, _, _, hex, hfin⟩ := checkLoop_inv sub_checked
+  have hl : subLoop = l := by simp only [subLoop, hs, Option.getD_some]
+  rw [hl, ← chainG_sbb]
+  exact checkBody_sound hex hfin la lb regs cf zf a b i hi hla hlb hB
 
 /-- THE WHOLE ADD ROUTINE: `n ≥ 1` iterations with `w*n` digits available behind both pointers:
     no fault, `b` untouched, `a` = adc chain on `[0, w*n)` (nothing outside is written), returned
@@ -184,26 +100,8 @@ theorem add_run_spec (la lb n : Nat) (hn : 1 ≤ n) (hnB : n < B) (hB : la < B)
       s'.a = (chainAdd a b false 0 (NB.Gen.P.addBlk.w * n)).1 ∧ s'.b = b ∧
       s'.regs addReg_idx = NB.Gen.P.addBlk.w * n ∧
       s'.regs addReg_c = b2n (chainAdd a b false 0 (NB.Gen.P.addBlk.w * n)).2 := by
-  unfold run
-  rw [add_prog_shape]
-  have hpre : addLoop.pre = [Instr.clc] := by decide
-  have hpost : addLoop.post = [Instr.setc addReg_c, Instr.clc] := by decide
-  simp only [hpre, hpost]
-  rw [exec_clc, exec_nil]
-  obtain ⟨s2, he, hp⟩ := loop_spec (addCfg la lb) addLoop.body addReg_idx addReg_size NB.Gen.P.addBlk.w chainAdd
-    chainAdd_add (fun regs cf zf a b i hi h1 h2 => add_body_spec la lb regs cf zf a b i hi h1 h2 hB)
-    n hn hnB regs false zf a b 0 hidx hsize (by simpa [addCfg, subCfg] using hla) (by simpa [addCfg, subCfg] using hlb) (n + 1) (by omega)
-  simp only [he]
-  obtain ⟨regs2, cf2, zf2, a2, b2⟩ := s2
-  rw [exec_setc (by asm_side) (by asm_side), exec_clc, exec_nil]
-  refine ⟨_, rfl, hp.a, hp.b, ?_, ?_⟩
-  · have := hp.idx
-    simp only [Nat.zero_add] at this
-    simp (disch := decide) only [addReg_idx, addReg_c, upd_ne] at this ⊢
-    exact this
-  · have := hp.cf
-    simp only at this
-    simp only [addReg_c, upd_same, this]
+  rw [← chainG_adc]
+  exact checkLoop_run add_checked la lb n hn hnB hB hla hlb regs cf zf a b hidx hsize
 
 theorem sub_run_spec (la lb n : Nat) (hn : 1 ≤ n) (hnB : n < B) (hB : la < B)
     (hla : NB.Gen.P.subBlk.w * n ≤ la) (hlb : NB.Gen.P.subBlk.w * n ≤ lb)
@@ -212,149 +110,14 @@ theorem sub_run_spec (la lb n : Nat) (hn : 1 ≤ n) (hnB : n < B) (hB : la < B)
       s'.a = (chainSub a b false 0 (NB.Gen.P.subBlk.w * n)).1 ∧ s'.b = b ∧
       s'.regs subReg_idx = NB.Gen.P.subBlk.w * n ∧
       s'.regs subReg_c = b2n (chainSub a b false 0 (NB.Gen.P.subBlk.w * n)).2 := by
-  unfold run
-  rw [sub_prog_shape]
-  have hpre : subLoop.pre = [Instr.clc] := by decide
-  have hpost : subLoop.post = [Instr.setc subReg_c, Instr.clc] := by decide
-  simp only [hpre, hpost]
-  rw [exec_clc, exec_nil]
-  obtain ⟨s2, he, hp⟩ := loop_spec (subCfg la lb) subLoop.body subReg_idx subReg_size NB.Gen.P.subBlk.w chainSub
-    chainSub_add (fun regs cf zf a b i hi h1 h2 => sub_body_spec la lb regs cf zf a b i hi h1 h2 hB)
-    n hn hnB regs false zf a b 0 hidx hsize (by simpa [addCfg, subCfg] using hla) (by simpa [addCfg, subCfg] using hlb) (n + 1) (by omega)
-  simp only [he]
-  obtain ⟨regs2, cf2, zf2, a2, b2⟩ := s2
-  rw [exec_setc (by asm_side) (by asm_side), exec_clc, exec_nil]
-  refine ⟨_, rfl, hp.a, hp.b, ?_, ?_⟩
-  · have := hp.idx
-    simp only [Nat.zero_add] at this
-    simp (disch := decide) only [subReg_idx, subReg_c, upd_ne] at this ⊢
-    exact this
-  · have := hp.cf
-    simp only at this
-    simp only [subReg_c, upd_same, this]
+  rw [← chainG_sbb]
+  exact checkLoop_run sub_checked la lb n hn hnB hB hla hlb regs cf zf a b hidx hsize
 
 /-- writes are confined: nothing outside `[0, w*n)` of `a` changes -/
 theorem add_run_confined (f g : Nat → Nat) (c : Bool) (m j : Nat) (h : m ≤ j) :
     (chainAdd f g c 0 m).1 j = f j := chainAdd_outside f g c 0 m j (by omega)
 theorem sub_run_confined (f g : Nat → Nat) (c : Bool) (m j : Nat) (h : m ≤ j) :
     (chainSub f g c 0 m).1 j = f j := chainSub_outside f g c 0 m j (by omega)
-
-/-! ### list level: the routine computes exactly the `adcZip` / `sbbZip` chain (C01 tier B) -/
-
-theorem range_map_memOf (l : List Nat) : (List.range l.length).map (memOf l) = l := by
-  apply List.ext_getElem
-  · simp
-  · intro i h1 h2
-    simp only [List.getElem_map, List.getElem_range]
-    exact memOf_lt (by simpa using h2)
-
-theorem map_upd_range (f : Nat → Nat) (len n v : Nat) :
-    (List.range len).map (upd f n v) = ((List.range len).map f).set n v := by
-  apply List.ext_getElem
-  · simp
-  · intro i h1 h2
-    simp only [List.getElem_map, List.getElem_range, List.getElem_set, upd]
-    by_cases h : i = n
-    · simp [h]
-    · have : ¬ n = i := fun e => h e.symm
-      simp [h, this]
-
-theorem adcI_fst (c : Bool) (x y : Nat) : (adcI c x y).1 = (adc (b2n c) x y).1 := rfl
-theorem adcI_snd (c : Bool) {x y : Nat} (hx : x < B) (hy : y < B) : b2n (adcI c x y).2 = (adc (b2n c) x y).2 := by
-  unfold adcI adc b2n
-  simp only
-  have hc : (if c then 1 else 0 : Nat) ≤ 1 := by split <;> omega
-  by_cases h : B ≤ x + y + (if c then 1 else 0)
-  · simp only [h, decide_true, if_true]
-    have : (x + y + if c then 1 else 0) / B = 1 := by
-      apply Nat.div_eq_of_lt_le <;> omega
-    omega
-  · simp only [h, decide_false]
-    have : (x + y + if c then 1 else 0) / B = 0 := Nat.div_eq_of_lt (by omega)
-    simp [this]
-
-theorem sbbI_fst (c : Bool) (x y : Nat) : (sbbI c x y).1 = (sbb (b2n c) x y).1 := by
-  unfold sbbI sbb; split <;> rfl
-theorem sbbI_snd (c : Bool) (x y : Nat) : b2n (sbbI c x y).2 = (sbb (b2n c) x y).2 := by
-  unfold sbbI sbb b2n
-  by_cases h : y + (if c then 1 else 0) ≤ x
-  · have : ¬ x < y + (if c then 1 else 0) := by omega
-    simp [h, this]
-  · have : x < y + (if c then 1 else 0) := by omega
-    simp [h, this]
-
-theorem take_succ_getElem (l : List Nat) (n : Nat) (h : n < l.length) : l.take (n + 1) = l.take n ++ [l[n]] := by
-  rw [List.take_succ_eq_append_getElem h]
-
-/-- the memory-function chain on two lists is the list chain `adcZip` on the first `n` digits -/
-theorem chainAdd_list (a b : List Nat) (c : Bool) (n : Nat) (hna : n ≤ a.length) (hnb : n ≤ b.length)
-    (ha : DigitsOk a) (hb : DigitsOk b) :
-    (List.range a.length).map (chainAdd (memOf a) (memOf b) c 0 n).1 =
-        (adcZip (b2n c) (a.take n) (b.take n)).1 ++ a.drop n ∧
-    b2n (chainAdd (memOf a) (memOf b) c 0 n).2 = (adcZip (b2n c) (a.take n) (b.take n)).2 := by
-  induction n with
-  | zero => simp [chainAdd, adcZip, range_map_memOf]
-  | succ n ih =>
-    obtain ⟨ih1, ih2⟩ := ih (by omega) (by omega)
-    have hla : n < a.length := by omega
-    have hlb : n < b.length := by omega
-    have htl : (a.take n).length = (b.take n).length := by simp [List.length_take]; omega
-    have hz := adcZip_append (a.take n) (b.take n) [a[n]] [b[n]] (b2n c) htl
-    rw [take_succ_getElem a n hla, take_succ_getElem b n hlb, hz]
-    simp only [chainAdd, Nat.zero_add]
-    have hzl : (adcZip (b2n c) (a.take n) (b.take n)).1.length = n := by
-      have hc : b2n c ≤ 1 := by unfold b2n; split <;> omega
-      have := (adcZip_spec (a.take n) (b.take n) (b2n c) htl (ha.take _) (hb.take _) hc).2.1
-      rw [this]; simp [List.length_take]; omega
-    have hma : memOf a n = a[n] := memOf_lt hla
-    have hmb : memOf b n = b[n] := memOf_lt hlb
-    have han : a[n] < B := ha _ (List.getElem_mem hla)
-    have hbn : b[n] < B := hb _ (List.getElem_mem hlb)
-    rw [hma, hmb]
-    constructor
-    · rw [map_upd_range, ih1]
-      simp only [adcZip]
-      rw [List.set_append_right _ _ (by omega), hzl, Nat.sub_self, adcI_fst, ih2]
-      have hd : a.drop n = a[n] :: a.drop (n + 1) := List.drop_eq_getElem_cons hla
-      rw [hd, List.set_cons_zero, List.append_assoc]
-      rfl
-    · simp only [adcZip]
-      rw [adcI_snd _ han hbn, ih2]
-
-theorem chainSub_list (a b : List Nat) (c : Bool) (n : Nat) (hna : n ≤ a.length) (hnb : n ≤ b.length)
-    (ha : DigitsOk a) (hb : DigitsOk b) :
-    (List.range a.length).map (chainSub (memOf a) (memOf b) c 0 n).1 =
-        (sbbZip (b2n c) (a.take n) (b.take n)).1 ++ a.drop n ∧
-    b2n (chainSub (memOf a) (memOf b) c 0 n).2 = (sbbZip (b2n c) (a.take n) (b.take n)).2 := by
-  induction n with
-  | zero => simp [chainSub, sbbZip, range_map_memOf]
-  | succ n ih =>
-    obtain ⟨ih1, ih2⟩ := ih (by omega) (by omega)
-    have hla : n < a.length := by omega
-    have hlb : n < b.length := by omega
-    have htl : (a.take n).length = (b.take n).length := by simp [List.length_take]; omega
-    have hz := sbbZip_append (a.take n) (b.take n) [a[n]] [b[n]] (b2n c) htl
-    rw [take_succ_getElem a n hla, take_succ_getElem b n hlb, hz]
-    simp only [chainSub, Nat.zero_add]
-    have hzl : (sbbZip (b2n c) (a.take n) (b.take n)).1.length = n := by
-      have hc : b2n c ≤ 1 := by unfold b2n; split <;> omega
-      have := (sbbZip_spec (a.take n) (b.take n) (b2n c) htl (ha.take _) (hb.take _) hc).2.1
-      rw [this]; simp [List.length_take]; omega
-    have hma : memOf a n = a[n] := memOf_lt hla
-    have hmb : memOf b n = b[n] := memOf_lt hlb
-    rw [hma, hmb]
-    constructor
-    · rw [map_upd_range, ih1]
-      simp only [sbbZip]
-      rw [List.set_append_right _ _ (by omega), hzl, Nat.sub_self, sbbI_fst, ih2]
-      have hd : a.drop n = a[n] :: a.drop (n + 1) := List.drop_eq_getElem_cons hla
-      rw [hd, List.set_cons_zero, List.append_assoc]
-      rfl
-    · simp only [sbbZip]
-      rw [sbbI_snd, ih2]
-
-def addRegs : Regs := ⟨addReg_size, addReg_a, addReg_b, addReg_c, addReg_idx⟩
-def subRegs : Regs := ⟨subReg_size, subReg_a, subReg_b, subReg_c, subReg_idx⟩
 
 /-- REFINEMENT (what NB.add2c assumes about the asm routine): called like the Rust wrapper on
     slices of `size` digits, the generated add program returns carry, `idx = w * (size / d)` and
@@ -365,33 +128,8 @@ theorem asm_add_refines (a b : List Nat) (size : Nat) (hsa : size ≤ a.length) 
       some (decide ((adcZip 0 (a.take (NB.Gen.P.addBlk.done size)) (b.take (NB.Gen.P.addBlk.done size))).2 > 0),
             NB.Gen.P.addBlk.done size,
             (adcZip 0 (a.take (NB.Gen.P.addBlk.done size)) (b.take (NB.Gen.P.addBlk.done size))).1
-              ++ a.drop (NB.Gen.P.addBlk.done size)) := by
-  have hv := gen_params_valid_addsub.1
-  have hdone := blk_done_le _ hv size
-  unfold call
-  have hd : NB.Gen.P.addBlk.d = addDiv := rfl
-  by_cases hn : size / addDiv = 0
-  · have : NB.Gen.P.addBlk.done size = 0 := by simp [Blk.done, hd, hn]
-    simp [hn, this, adcZip]
-  · simp only [hn, if_false]
-    have hdn : NB.Gen.P.addBlk.done size = NB.Gen.P.addBlk.w * (size / addDiv) := rfl
-    obtain ⟨s', he, h1, h2, h3, h4⟩ := add_run_spec a.length b.length (size / addDiv) (Nat.pos_of_ne_zero hn)
-      (lt_of_le_of_lt (Nat.div_le_self size addDiv) (by omega)) hB (by rw [← hdn]; omega) (by rw [← hdn]; omega)
-      (initSt addRegs (size / addDiv) a b).regs false false (memOf a) (memOf b)
-      (by simp [initSt, addRegs, upd]) (by simp (disch := decide) [initSt, addRegs, upd_ne, upd, addReg_size, addReg_idx])
-    have hcfg : (⟨addRegs.a, addRegs.b, a.length, b.length⟩ : Cfg) = addCfg a.length b.length := rfl
-    have hinit : initSt addRegs (size / addDiv) a b =
-        ⟨(initSt addRegs (size / addDiv) a b).regs, false, false, memOf a, memOf b⟩ := rfl
-    rw [hcfg, hinit, he]
-    obtain ⟨l1, l2⟩ := chainAdd_list a b false (NB.Gen.P.addBlk.done size) (by omega) (by omega) ha hb
-    have hb0 : b2n false = 0 := rfl
-    rw [hb0] at l1 l2
-    rw [← hdn] at h1 h3 h4
-    simp only [Option.some.injEq, Prod.mk.injEq]
-    refine ⟨?_, h3, ?_⟩
-    · show decide (s'.regs addReg_c > 0) = _
-      rw [h4, ← l2]
-    · rw [h1]; exact l1
+              ++ a.drop (NB.Gen.P.addBlk.done size)) :=
+  checkLoop_sound_div add_checked addDiv add_width a b size hsa hsb hB ha hb
 
 theorem asm_sub_refines (a b : List Nat) (size : Nat) (hsa : size ≤ a.length) (hsb : size ≤ b.length)
     (hB : a.length < B) (ha : DigitsOk a) (hb : DigitsOk b) :
@@ -399,39 +137,15 @@ theorem asm_sub_refines (a b : List Nat) (size : Nat) (hsa : size ≤ a.length) 
       some (decide ((sbbZip 0 (a.take (NB.Gen.P.subBlk.done size)) (b.take (NB.Gen.P.subBlk.done size))).2 > 0),
             NB.Gen.P.subBlk.done size,
             (sbbZip 0 (a.take (NB.Gen.P.subBlk.done size)) (b.take (NB.Gen.P.subBlk.done size))).1
-              ++ a.drop (NB.Gen.P.subBlk.done size)) := by
-  have hv := gen_params_valid_addsub.2
-  have hdone := blk_done_le _ hv size
-  unfold call
-  have hd : NB.Gen.P.subBlk.d = subDiv := rfl
-  by_cases hn : size / subDiv = 0
-  · have : NB.Gen.P.subBlk.done size = 0 := by simp [Blk.done, hd, hn]
-    simp [hn, this, sbbZip]
-  · simp only [hn, if_false]
-    have hdn : NB.Gen.P.subBlk.done size = NB.Gen.P.subBlk.w * (size / subDiv) := rfl
-    obtain ⟨s', he, h1, h2, h3, h4⟩ := sub_run_spec a.length b.length (size / subDiv) (Nat.pos_of_ne_zero hn)
-      (lt_of_le_of_lt (Nat.div_le_self size subDiv) (by omega)) hB (by rw [← hdn]; omega) (by rw [← hdn]; omega)
-      (initSt subRegs (size / subDiv) a b).regs false false (memOf a) (memOf b)
-      (by simp [initSt, subRegs, upd]) (by simp (disch := decide) [initSt, subRegs, upd_ne, upd, subReg_size, subReg_idx])
-    have hcfg : (⟨subRegs.a, subRegs.b, a.length, b.length⟩ : Cfg) = subCfg a.length b.length := rfl
-    have hinit : initSt subRegs (size / subDiv) a b =
-        ⟨(initSt subRegs (size / subDiv) a b).regs, false, false, memOf a, memOf b⟩ := rfl
-    rw [hcfg, hinit, he]
-    obtain ⟨l1, l2⟩ := chainSub_list a b false (NB.Gen.P.subBlk.done size) (by omega) (by omega) ha hb
-    have hb0 : b2n false = 0 := rfl
-    rw [hb0] at l1 l2
-    rw [← hdn] at h1 h3 h4
-    simp only [Option.some.injEq, Prod.mk.injEq]
-    refine ⟨?_, h3, ?_⟩
-    · show decide (s'.regs subReg_c > 0) = _
-      rw [h4, ← l2]
-    · rw [h1]; exact l1
+              ++ a.drop (NB.Gen.P.subBlk.done size)) :=
+  checkLoop_sound_div sub_checked subDiv sub_width a b size hsa hsb hB ha hb
 
 /-- the u64-as-u32 view used by `gen_biguint`: `⌈n/32⌉` u32 words always fit in `⌈n/64⌉` u64 digits -/
 theorem rand_view_fits (n : Nat) : (n + 31) / 32 ≤ 2 * ((n + 63) / 64) := by omega
 
-/- non-vacuity -/
-example : call addProg addRegs addDiv [B - 1, B - 1, B - 1, B - 1, B - 1, 7] [1, 0, 0, 0, 0, 9] 6
-    = some (true, 5, [0, 0, 0, 0, 0, 7]) := by decide
+/- non-vacuity: the routine runs, and the checker is not trivially `none`/`some` -/
+example : (call addProg addRegs addDiv (List.replicate NB.Gen.P.addBlk.w (B - 1) ++ [7])
+      (1 :: List.replicate (NB.Gen.P.addBlk.w - 1) 0 ++ [9]) (NB.Gen.P.addBlk.w + 1)).map (fun r => (r.1, r.2.1))
+    = some (true, NB.Gen.P.addBlk.w) := by decide
 
 end NB.Asm
